@@ -9,7 +9,7 @@ from props import c02, c06
 
 ID = "C20"
 LEVEL = "proof"
-THEOREMS = ["C20_interleavings_equivalent_partial", "C20_compile_modifies_only", "C20_design_modifies_only", "C20_finish_modifies_only", "C20_scratch_disjoint", "C20_compiles_modify_disjoint_files", "C20_designs_modify_disjoint_files"]
+THEOREMS = ["C20_interleavings_equivalent_partial", "C20_compile_modifies_only", "C20_design_modifies_only", "C20_finish_modifies_only", "C20_scratch_disjoint", "C20_compiles_modify_disjoint_files", "C20_designs_modify_disjoint_files", "C20_disjoint_file_sets_commute"]
 TRUSTED = ["harness/translate_footprint.py (fail-closed ast walker of the three tools' entry functions and callees)",
            "strace -f on the command-line tools; the NUPACK stub and a gcc build of spuriousSSM for full design runs"]
 ASSUMPTIONS = ["PYTHONDONTWRITEBYTECODE=1 and PYTHONHASHSEED=0 for the tools; files under /tmp created by mkstemp and interpreter/site-packages files are not part of the footprint"]
